@@ -278,6 +278,10 @@ def run(ctx):
     # kind(parse(format(sentence))) = sentence requires that the start of the sentence's term cannot be read as a budget
     import tables
     tables.rule_T_BUDGET_IDENT(ctx, tables.Tables(ctx), models=("enum", "lex"))
+    # a bracketed-number alternative whose opening keyword can also start a term must not leave its slot filled when it backs off:
+    # a stale (empty) budget turns the sentence into a task in the enum parser only (seeds c01-b/c, c15-d)
+    import c01 as _c01, tables as _tables
+    _c01.x_conflict(ctx, _tables.Tables(ctx))
     ctx.undecided = ["kind(parse(format(v))) = kind(v) for every value (runs into value-dependent parsing, see C01)"]
     ctx.assumptions = ["Vec::is_empty / matches! semantics of std"]
     ctx.trusted = ["rustc HIR/MIR", "mirfacts driver", "python rule layer"]
